@@ -146,6 +146,9 @@ class Run:
         self.caps_hit = []
         self.rule = ""
         self.extra = {}
+        import shutil
+
+        shutil.rmtree(os.path.join(VERIF, "replays", prop), ignore_errors=True)
         self.deadline = self.t0 + float(os.environ.get("FCPMC_DEADLINE_S", "0") or 0) if os.environ.get("FCPMC_DEADLINE_S") else None
 
     def out_of_time(self):
